@@ -118,7 +118,10 @@ func NewZlispWithFuncs(funcs map[string]ZlispUserFunction) *Zlisp {
 	env.AddGlobal("null", SexpNull)
 	env.AddGlobal("nil", SexpNull)
 
-	for key, function := range funcs {
+	// intern in sorted order: symbol numbers are visible to scripts (symnum,
+	// symbol comparison, gensym names) and must not depend on map iteration order.
+	for _, key := range sortedKeys(funcs) {
+		function := funcs[key]
 		sym := env.MakeSymbol(key)
 		env.builtins[sym.number] = MakeUserFunction(key, function)
 		env.AddFunction(key, function)
